@@ -31,12 +31,41 @@ _RAW = re.compile(r'r(#+)"(.*?)"\1', re.S)
 _FENCE = re.compile(r"```(?:js|solidity|sol|javascript)?\n(.*?)```", re.S)
 
 
-def prepare_corpus():
+# random programs per check and tier (bin/randsol.py): (first index, count); fixed seed tag, so that the inputs of a check
+# are the same on every run (the verdict on them is the specification's, evaluated by TLC)
+RAND_TAG = "v1"
+RAND = {"C01": {"quick": (0, 30), "thorough": (0, 400)},
+        "C02": {"quick": (100, 10), "thorough": (100, 80)},
+        "C17": {"quick": (200, 10), "thorough": (200, 80)},
+        "C04": {"quick": (300, 150), "thorough": (300, 3000)},
+        "C05": {"quick": (1000, 60), "thorough": (1000, 900)},
+        "C06": {"quick": (2000, 60), "thorough": (2000, 900)},
+        "C07": {"quick": (3000, 60), "thorough": (3000, 900)},
+        "C08": {"quick": (4000, 60), "thorough": (4000, 900)},
+        "C09": {"quick": (5000, 20), "thorough": (5000, 150)},
+        "C10": {"quick": (6000, 100), "thorough": (6000, 1500)},
+        "C19": {"quick": (7000, 30), "thorough": (7000, 300)}}
+
+
+def prepare_corpus(pid=None, tier=None):
     """Collect corpus files into work/corpus (rebuilt on every check run)."""
+    import randsol
     out = os.path.join(WORK, "corpus")
     shutil.rmtree(out, ignore_errors=True)
     os.makedirs(out)
     n = 0
+    if pid in RAND and tier in RAND[pid]:
+        first, count = RAND[pid][tier]
+        for k in range(first, first + count):
+            with open(os.path.join(out, "g_%s_%05d.sol" % (RAND_TAG, k)), "wb") as f:
+                f.write(randsol.program(RAND_TAG, k).encode("utf-8"))
+        n += count
+    if pid == "C04":
+        # boundary-value matrix: every pair of binary operators over every pair of boundary literals, all bracketings
+        for part in range(randsol.MATRIX_PARTS):
+            with open(os.path.join(out, "m_literal_matrix_%02d.sol" % part), "w") as f:
+                f.write(randsol.literal_matrix(["0.8.17", "0.7.6", "^0.8.4"][part % 3], part))
+        n += randsol.MATRIX_PARTS
     for name in sorted(os.listdir(os.path.join(ROOT, "corpus"))):
         if name.endswith(".sol"):
             shutil.copy(os.path.join(ROOT, "corpus", name), os.path.join(out, "h_" + name))
@@ -316,7 +345,7 @@ def check_c10(chk, tier):
     res = vlib.harness(hb, ["c10-replay", bpath])
     chk.add_harness(res)
     # implementation -> specification
-    corpus = prepare_corpus()
+    corpus = prepare_corpus("C10", tier)
     tpath = os.path.join(d, "trace.ndjson")
     res2 = vlib.harness(hb, ["c10-record", corpus, tpath])
     chk.add_harness(res2, count_traces=False)
@@ -392,7 +421,7 @@ def check_c09(chk, tier):
     vlib.write_ndjson(bpath, beh)
     res = vlib.harness(hb, ["c09-replay", bpath])
     chk.add_harness(res)
-    corpus = prepare_corpus()
+    corpus = prepare_corpus("C09", tier)
     tpath = os.path.join(d, "trace.ndjson")
     res2 = vlib.harness(hb, ["c09-record", corpus, tpath])
     chk.add_harness(res2, count_traces=False)
@@ -427,7 +456,7 @@ def _layout_check(chk, tier, pid):
         raise ToolError("MC_C02_Emit generated only %d gap patterns" % len(pats))
     ppath = os.path.join(d, "patterns.ndjson")
     vlib.write_ndjson(ppath, pats)
-    corpus = prepare_corpus()
+    corpus = prepare_corpus(pid, tier)
     tpath = os.path.join(d, "trace.ndjson")
     xpath = os.path.join(d, "texts.ndjson")
     mode = "c17" if pid == "C17" else "c02"
@@ -463,7 +492,7 @@ def _layout_check(chk, tier, pid):
             case["source"] = texts[i - 1]["text"]
             case["canon"] = texts[i - 1].get("canon", "")
             rec = case.get("trace_record", {})
-            for k in ("n", "inj", "gaps", "inner"):
+            for k in ("n", "inj", "gaps", "inner", "entry"):
                 case[k] = rec.get(k)
             det = v["sig"].split(":", 1)[1] if ":" in v["sig"] else ""
             case["detector"] = det
@@ -604,7 +633,47 @@ def _report_check(chk, tier, pid):
                         combo, code, "missing" if not os.path.exists(rp) else "present"), {"combo": list(combo), "stderr": err[-200:]})
                     continue
                 shutil.copy(rp, os.path.join(reports, "b%02d.md" % ci))
+            # ... and with every pattern selected over trees in which only SOME categories have findings (quiet files,
+            # nested and empty directories): which parts must be present follows from the per-file results in isolation
+            quiet = {"Quiet": "pragma solidity 0.8.17;\ncontract Quiet { }\n",
+                     "OnlyOpt": "pragma solidity 0.8.17;\ncontract OnlyOpt { uint256 x; function f() external payable { x++; } }\n",
+                     "OnlyVuln": "pragma solidity ^0.8.17;\ncontract OnlyVuln { }\n",
+                     "OnlyQa": "pragma solidity 0.8.17;\ncontract OnlyQa { function f() private pure {} }\n"}
+            qruns = []
+            for qi, (qn, text) in enumerate(sorted(quiet.items())):
+                iso = os.path.join(scratch2, "iso_%s.sol" % qn)
+                with open(iso, "w") as f:
+                    f.write(text)
+                rr = vlib.harness(hb, ["analyze", iso])["extra"]["results"]
+                has = {c: any(isinstance(rr.get(pn), list) and rr.get(pn) for pn in cat[c]) for c in bindrive.CATS}
+                for shape in ("flat", "nested"):
+                    troot = os.path.join(scratch2, "q%d%s" % (qi, shape))
+                    where = troot if shape == "flat" else os.path.join(troot, "sub", "inner")
+                    os.makedirs(where)
+                    with open(os.path.join(where, qn + ".sol"), "w") as f:
+                        f.write(text)
+                    if shape == "nested":
+                        os.makedirs(os.path.join(troot, "empty"))
+                        os.makedirs(os.path.join(troot, "deep", "empty2"))
+                    cwd = os.path.join(scratch2, "qcwd%d%s" % (qi, shape))
+                    os.makedirs(cwd)
+                    code, err = bindrive.run_solstat(sb, cwd, ["--path", troot])
+                    rp = os.path.join(cwd, "solstat_report.md")
+                    tag = "q%d%s" % (qi, shape)
+                    if code != 0 or not os.path.exists(rp):
+                        chk.violate("binary-report:run-failed:%s:%s" % (qn, shape), "solstat over a %s tree holding %s.sol: exit %s, report %s" % (
+                            shape, qn, code, "missing" if not os.path.exists(rp) else "present"), {"content": text, "shape": shape, "stderr": err[-200:]})
+                        continue
+                    shutil.copy(rp, os.path.join(reports, tag + ".md"))
+                    qruns.append((tag, qn, shape, has))
             parsed = bindrive.parse_reports(hb, reports)
+            for (tag, qn, shape, has) in qruns:
+                p = parsed.get(tag + ".md")
+                if p is None:
+                    continue
+                extra.append({"k": "file", "via": "binary", "selected": ["all", qn, shape],
+                              "present": {c: bool(p.get("parts", {}).get(c)) for c in bindrive.CATS},
+                              "nonempty": has, "garbage": bool(p["garbage"])})
             for ci, combo in enumerate(combos):
                 p = parsed.get("b%02d.md" % ci)
                 if p is None:
@@ -1015,6 +1084,14 @@ def _c18_execute(chk, sb, hist):
         shutil.copy(os.path.join(ROOT, "corpus", "unicode_idents.sol"), os.path.join(inner, "Ünï.sol"))
         with open(os.path.join(inner, "Broken.t.sol"), "wb") as f:
             f.write(b"contract Broken { function (")
+        # build output next to the sources: directories that are called like a contract (Foundry's out/Counter.sol/,
+        # Hardhat's artifacts/.../Token.sol/), dotted directory names
+        art = os.path.join(proj, "out", "Counter.sol")
+        os.makedirs(art)
+        with open(os.path.join(art, "Counter.json"), "wb") as f:
+            f.write(b'{"abi": [], "bytecode": "0x60"}')
+        shutil.copy(os.path.join(ROOT, "corpus", "strings_new.sol"), os.path.join(art, "Impl.sol"))
+        os.makedirs(os.path.join(proj, "v0.8", "Empty.sol"))
         with open(os.path.join(proj, "notes.txt"), "wb") as f:
             f.write(b"\x00\xff not solidity")
         os.makedirs(os.path.join(root, "other"))
@@ -1197,7 +1274,7 @@ def check_c01(chk, tier):
     chk.add_harness(res, count_traces=False)
     trace_validate(chk, "TV_Walk", t1, _walk_describe, timeout=3000)
     # impl -> spec: corpus programs
-    corpus = prepare_corpus()
+    corpus = prepare_corpus("C01", tier)
     t2 = os.path.join(d, "trace-corpus.ndjson")
     res2 = vlib.harness(hb, ["walk-record", corpus, "1" if tier == "thorough" else "0", t2], timeout=3000)
     chk.add_harness(res2, count_traces=False)
@@ -1235,7 +1312,7 @@ def _patterns_check(chk, tier, pid, max_records=None):
         beh = beh[vlib.seed() % step::step]
     bpath = os.path.join(d, "behaviours.ndjson")
     vlib.write_ndjson(bpath, beh)
-    corpus = prepare_corpus()
+    corpus = prepare_corpus(pid, tier)
     tpath = os.path.join(d, "trace.ndjson")
     xpath = os.path.join(d, "texts.ndjson")
     res = vlib.harness(hb, ["detect-record", corpus, bpath, tpath, xpath], timeout=3400)
@@ -1326,7 +1403,7 @@ def check_c04(chk, tier):
         path = os.path.join(d, tag, "behaviours.ndjson")
         vlib.write_ndjson(path, beh)
         bfiles.append(path)
-    corpus = prepare_corpus()
+    corpus = prepare_corpus("C04", tier)
     traces = {}
     for build, hb in (("dev", hb_dev), ("release", hb_rel)):
         tpath = os.path.join(d, "trace-%s.ndjson" % build)
@@ -1391,7 +1468,7 @@ def check_c19(chk, tier):
         raise ToolError("MC_Compose generated only %d files" % len(beh))
     bpath = os.path.join(d, "behaviours.ndjson")
     vlib.write_ndjson(bpath, beh)
-    corpus = prepare_corpus()
+    corpus = prepare_corpus("C19", tier)
     tpath = os.path.join(d, "trace.ndjson")
     xpath = os.path.join(d, "texts.ndjson")
     res = vlib.harness(hb, ["compose-record", corpus, bpath, "60" if tier == "quick" else "600", tpath, xpath], timeout=3400)
